@@ -18,13 +18,17 @@ type Conn struct {
 	closed           atomic.Bool
 	handshakeContext func(ctx context.Context) error
 	lock             chan struct{} // write lock
+	// at most one caller runs the handshake; the others wait for it - or for the end of their own context
+	handshakeSem  chan struct{}
+	handshakeDone atomic.Bool
 }
 
 // NewConn creates connection over net.Conn.
 func NewConn(c net.Conn) *Conn {
 	connection := Conn{
-		connection: c,
-		lock:       make(chan struct{}, 1),
+		connection:   c,
+		lock:         make(chan struct{}, 1),
+		handshakeSem: make(chan struct{}, 1),
 	}
 
 	if v, ok := c.(interface {
@@ -61,8 +65,21 @@ func (c *Conn) Close() error {
 
 func (c *Conn) handshake(ctx context.Context) error {
 	if c.handshakeContext != nil {
+		if c.handshakeDone.Load() {
+			return nil
+		}
+		// dtls.Conn serialises the callers of HandshakeContext on a mutex that knows nothing of their contexts:
+		// a caller must not wait there behind the handshake that another caller (the reader, with the context
+		// of the connection) is running against a silent peer
+		select {
+		case c.handshakeSem <- struct{}{}:
+		case <-ctx.Done():
+			return ctx.Err()
+		}
+		defer func() { <-c.handshakeSem }()
 		err := c.handshakeContext(ctx)
 		if err == nil {
+			c.handshakeDone.Store(true)
 			return nil
 		}
 		errC := c.Close()
